@@ -96,6 +96,16 @@ func (e *env) resolve(a string, t time.Duration) types.Currency {
 		return sum
 	case a == "bal+1":
 		return sum.Add(types.NewCurrency64(1))
+	case strings.HasPrefix(a, "U"): // the largest unconfirmed wallet output (held or not) divided by k
+		k, _ := strconv.Atoi(a[1:])
+		_, created := e.poolView()
+		var mx types.Currency
+		for _, v := range created {
+			if v.Cmp(mx) > 0 {
+				mx = v
+			}
+		}
+		return mx.Div64(uint64(max(k, 1)))
 	case strings.HasPrefix(a, "d"): // the largest spendable value divided by k
 		k, _ := strconv.Atoi(a[1:])
 		var mx types.Currency
@@ -912,6 +922,12 @@ func (e *env) doSplit(o opSpec) (failed bool) {
 	exp, _ := e.expected(t)
 	spent, created := e.poolView()
 	outstanding := e.outstanding(t)
+	for id := range created {
+		if pv2, ok := e.creatorV2(id); ok && pv2 && e.isReservedBefore(id, t) {
+			e.stats["split:with-reserved-unconfirmed-candidate"]++
+			break
+		}
+	}
 	fee := e.w.RecommendedFee().Mul64(2000)
 	txn, err := e.w.SplitUTXO(o.N, minAmt)
 	hi := e.clock()
@@ -937,6 +953,9 @@ func (e *env) doSplit(o opSpec) (failed bool) {
 		e.stats["split:noop"]++
 	default:
 		e.stats["split:ok"]++
+		if _, ok := created[txn.SiacoinInputs[0].Parent.ID]; ok {
+			e.stats["split:unconfirmed-input"]++
+		}
 		in := txn.SiacoinInputs[0].Parent.ID
 		var outSum types.Currency
 		var vals []string
